@@ -14,6 +14,14 @@
 (*   Q(i, q)         query object i: lite | sides | index | sub            *)
 (*   MC(which)       the caller shifts ITS arrays (nodes | min | max)      *)
 (*   MR(i, attr)     the caller overwrites an array RETURNED by object i   *)
+(*   CM(i, m)        the caller CALLS a non-mutating public method m of    *)
+(*                   the shared sub-objects of object i (its IntervalProd  *)
+(*                   `set.*`, its RectGrid `grid.*`, the partition itself  *)
+(*                   `part.*`: everything documented as returning a NEW    *)
+(*                   object or a value - collapse, squeeze, insert, append,*)
+(*                   min, max, corners, arithmetic, ...) and overwrites    *)
+(*                   every array the call hands out.  The model state does *)
+(*                   not move: that IS the specification of these methods. *)
 (*   SWEEP           every query on every object, in both orders           *)
 (* Invariant (from the statement, which speaks of "every partition"):      *)
 (* the answer to a query is a function of the partition's own defining     *)
@@ -22,19 +30,21 @@
 (***************************************************************************)
 EXTENDS PartitionImpl, TLC
 
-CONSTANTS Scenarios, MaxLen, Routes, Attrs
+CONSTANTS Scenarios, MaxLen, Routes, Attrs, Methods
 VARIABLES sc, objs, hist
 vars == <<sc, objs, hist>>
 
 PartOf(o) == [k \in 1..Len(sc.nodes) |-> Axis(sc.lims[o.lim].min[k], sc.lims[o.lim].max[k], sc.nodes[k])]
 Step(a, route, lim, i, q, attr, exp) == [a |-> a, route |-> route, lim |-> lim, i |-> i, q |-> q, attr |-> attr, exp |-> exp]
-Mutated  == \E j \in 1..Len(hist) : hist[j].a \in {"MC", "MR"}
+Mutated  == \E j \in 1..Len(hist) : hist[j].a \in {"MC", "MR", "CM"}
 CallerMutated == \E j \in 1..Len(hist) : hist[j].a = "MC"
+Called   == \E j \in 1..Len(hist) : hist[j].a = "CM"
 Swept    == Len(hist) >= 1 /\ hist[Len(hist)].a = "SWEEP"
 
 Init == sc \in Scenarios /\ objs = <<>> /\ hist = <<>>
 Construct(route, lim) ==
   /\ Len(objs) < 2 /\ ~CallerMutated            \* (a construction after MC would legitimately see the shifted arrays)
+  /\ ~Called                                    \* (bound: C, C, CM already covers a sibling on the shared grid)
   /\ objs' = Append(objs, [route |-> route, lim |-> lim])
   /\ hist' = Append(hist, Step("C", route, lim, Len(objs) + 1, "", "", <<>>))
 Query(i, q) ==
@@ -44,6 +54,10 @@ MutCaller(which) ==
   /\ ~Mutated /\ hist' = Append(hist, Step("MC", "", 0, 0, "", which, <<>>)) /\ UNCHANGED objs
 MutReturned(i, attr) ==
   /\ ~Mutated /\ hist' = Append(hist, Step("MR", "", 0, i, "", attr, <<>>)) /\ UNCHANGED objs
+\* a call of a non-mutating method of the set / grid / partition of the most recently built object (a shared grid is
+\* the same object for all siblings): objs - the defining data of every partition - is unchanged by definition
+CallShared(i, m) ==
+  /\ ~Mutated /\ i = Len(objs) /\ hist' = Append(hist, Step("CM", "", 0, i, "", m, <<>>)) /\ UNCHANGED objs
 Sweep ==
   /\ hist' = Append(hist, Step("SWEEP", "", 0, 0, "", "", [i \in 1..Len(objs) |-> RefAll(PartOf(objs[i]))]))
   /\ UNCHANGED objs
@@ -52,7 +66,8 @@ Next ==
   /\ IF Len(hist) = MaxLen THEN Sweep
      ELSE \/ \E r \in Routes, l \in 1..Len(sc.lims) : Construct(r, l)
           \/ (Len(objs) >= 1 /\ \E i \in 1..Len(objs) : \/ \E q \in Queries : Query(i, q)
-                                                         \/ \E at \in Attrs : MutReturned(i, at))
+                                                         \/ \E at \in Attrs : MutReturned(i, at)
+                                                         \/ \E m \in Methods : CallShared(i, m))
           \/ (Len(objs) >= 1 /\ \E w \in {"nodes", "min", "max"} : MutCaller(w))
 Spec == Init /\ [][Next]_vars
 
